@@ -297,7 +297,7 @@ const LONGS: [&str; 5] = [
     "\"x\".repeat(21).split(\"\").map((_: any, i: number) => (i * 7) % 11)",
     "\"x\".repeat(33).split(\"\").map((_: any, i: number) => (i * 13) % 17)",
     "\"x\".repeat(64).split(\"\").map((_: any, i: number) => 64 - i)",
-    "\"x\".repeat(100).split(\"\").map((_: any, i: number) => (i * 37) % 101)",
+    "\"x\".repeat(48).split(\"\").map((_: any, i: number) => (i * 37) % 49)",
     "\"x\".repeat(40).split(\"\").map((_: any, i: number) => ({ v: (i * 5) % 7 }))",
 ];
 const CMPS: [&str; 12] = [
@@ -369,7 +369,7 @@ const NATIVE_CALLS: &[&str] = &[
     "new RegExp(@S, \"g\").exec(@S)", "new RegExp(\"(?<n>\" + @S + \")\")", "@S.replace(new RegExp(@S, \"g\"), \"$&$1$<n>$`$'\")", "@S.replace(/(?<c>.)/gu, \"$<c>$<c>\")", "@S.replaceAll(/./g, (m: string, o: number) => m + o)", "@S.split(/(.)/, @I)",
     // catalogue 3: callbacks with ill-behaved results over inputs past small-size fast paths (@L long
     // array, @C comparator), coercion hooks that write to their receiver (@O), prototype cycles
-    "@L.sort(@C).length", "@L.toSorted(@C).length", "@L.sort(@C).slice(0, 3)", "@L.map(String).sort(@C).length", "@L.concat(@L).sort(@C).length", "@L.sort().length", "@L.toSorted().slice(-2)",
+    "@L.sort(@C).length", "@L.toSorted(@C).length", "@L.sort(@C).slice(0, 3)", "@L.map(String).sort(@C).length", "@L.slice(0, 30).concat(@L.slice(0, 26)).sort(@C).length", "@L.sort().length", "@L.toSorted().slice(-2)",
     "@L.findLastIndex((x: any) => x === @N)", "@L.reduceRight((p: any, c: any) => p + c, 0)", "@L.flatMap((x: any) => [x, [x]]).length", "@L.join(@S).length", "@L.indexOf(@N, @I)", "@L.with(@I, 1).length", "@L.toSpliced(@I, @I, 1, 2).length",
     "+@O", "`${@O}`", "@O + \"\"", "@O < 1", "[@O, @O].join()", "String(@O)", "Number(@O)", "@O == 7", "({ a: 1 } as any)[@O]", "new Date(@O as any).getTime()", "Math.max(@O as any, 1)", "\"abc\".slice(@O as any)", "[1, 2, 3].at(@O as any)", "@O * @O", "JSON.stringify(@O)", "isNaN(@O as any)", "parseInt(@O as any)",
     "((a: any, b: any) => { try { Object.setPrototypeOf(a, b); Object.setPrototypeOf(b, a); } catch (e: any) { return \"refused:\" + e.name; } return String(a.nope) + (\"nope\" in a); })({}, {})",
